@@ -13,8 +13,9 @@ NESTS = [1, 5, 20]
 LOOPS = 6          # loop kinds of the harness: while, for, do-while, goto self, goto cycle, while with body
 
 
-def hdr(prot, warn, err, dbg, limit, nest, step):
-    return "%d %d %d %d %d %d %d" % (prot, warn, err, dbg, limit, nest, step)
+def hdr(prot, warn, err, dbg, limit, nest, step, x=0):
+    """x: bit 0 = Verbose stream attached, bit 1 = Output stream not attached"""
+    return "%d %d %d %d %d %d %d %d" % (prot, warn, err, dbg, limit, nest, step, x)
 
 
 def chain(n, inner="p9"):
@@ -114,7 +115,7 @@ class C14(vlib.HistoryProp):
             else:
                 ops.append("R")
         ops += ["T 9", "X", "S p99", "X"]
-        h = hdr(prot, rng.random() < 0.5, rng.random() < 0.5, rng.random() < 0.5, limit, nest, step)
+        h = hdr(prot, rng.random() < 0.5, rng.random() < 0.5, rng.random() < 0.5, limit, nest, step, rng.choice([0, 0, 1, 2, 3]))
         return Case(cid, h, ops, "random-%s" % ("prot" if prot else "noprot"))
 
     def gen(self, tier, seed):
@@ -131,6 +132,13 @@ class C14(vlib.HistoryProp):
             for name, ops in self.scenarios(prot, limit, nest, step, rng):
                 cases.append(Case("g%d" % k, hdr(prot, warn, err, dbg, limit, nest, step), ops,
                                   "grid-%s-%s" % ("prot" if prot else "noprot", name)))
+                k += 1
+        # the two remaining output levels: Verbose attached, Output detached - every subset of the five streams
+        xlim, xnest = ([10], [5]) if tier == "quick" else (LIMITS, NESTS)
+        for prot, warn, err, dbg, x, limit, nest in itertools.product((1, 0), (1, 0), (1, 0), (1, 0), (1, 2, 3), xlim, xnest):
+            for name, ops in self.scenarios(prot, limit, nest, 1, rng):
+                cases.append(Case("v%d" % k, hdr(prot, warn, err, dbg, limit, nest, 1, x), ops,
+                                  "streams-%s-%s" % ("prot" if prot else "noprot", name)))
                 k += 1
         # other clock steps, no limit, constant clock (streams all attached / all absent)
         for prot, st, limit, nest, step in itertools.product((1, 0), (1, 0), (0, 1, 10, 100), (1, 5), (0, 2, 7, 30)):
@@ -176,6 +184,7 @@ HP = C14()
 
 def check(res, tier, seed):
     res.cov["rule"] += ("C14: corpus; EVERY configuration {protection on,off} x {Warn,Error,Debug attached or not} x limit {1,10,100} ms x nesting limit {1,5,20} "
+                        "(and every subset of all FIVE output levels - Verbose attached, Output detached - at limit 10 / nesting 5; thorough: the whole grid) "
                         "(clock step 1; thorough also 3) x ~16 scenarios (endless loop of 6 kinds at top level / after prints / nested / in a resumed thread / in a "
                         "child after its wait / two at once [protection on only], work ending 2,1,0 before and 1,3 after the deadline, long work, work in a child, "
                         "endless mutual recursion, call chains exactly at and one over the nesting limit (also resumed), script warning and abort), each followed by "
